@@ -319,14 +319,26 @@ def build_fn(item, spec, canary, log):
     kws = _loop_positions(mbody)
     if spec.get("n_loops") is not None and len(kws) != spec["n_loops"]:
         raise LostAnchor("%s: %d loops found, unit expects %d" % (fn_id, len(kws), spec["n_loops"]))
-    if len(loops) > len(kws):
+    keyed = [lp for lp in loops if lp is not None and lp.get("when")]
+    if len(loops) - len(keyed) > len(kws):
         raise LostAnchor("%s: %d loops found, contracts for %d" % (fn_id, len(kws), len(loops)))
     MARK = "\u0001%d\u0002"
     inserts = []  # (pos in body, text)
     for li, lp in enumerate(loops):
         if lp is None:
             continue
-        o = _loop_body_open(mbody, kws[li])
+        if lp.get("when"):
+            # a contract keyed by a text that occurs in the loop's HEADER (between the keyword and the body): it follows its loop when other loops
+            # come or go, and is skipped -- not a lost anchor -- when no loop has that header any more
+            hits = [k for k in kws if lp["when"] in body[k:_loop_body_open(mbody, k)]]
+            if len(hits) != 1:
+                log.append("%s: loop contract `%s` skipped: %d loops match" % (fn_id, lp["when"][:50], len(hits)))
+                continue
+            o = _loop_body_open(mbody, hits[0])
+        else:
+            if li >= len(kws):
+                raise LostAnchor("%s: %d loops found, contract for loop %d" % (fn_id, len(kws), li))
+            o = _loop_body_open(mbody, kws[li])
         parts = []
         if lp.get("invariant_except_break"):
             parts.append("invariant_except_break\n" + "".join("    %s%s,\n" % (MARK % _reg(("loop%d-invariant_except_break" % li, c[0], c[1], c[2] if len(c) > 2 else None)), c[1]) for c in lp["invariant_except_break"]))
